@@ -98,6 +98,27 @@ static int spec_nres(const char* x, int w)
         return n;
 }
 
+/* turn the gapped rows of m into the form a file reader returns: residues only, gaps[k] = gap symbols in front of residue k */
+static void kv_to_gap_counts(struct msa* m, int w)
+{
+        int i, c;
+        for(i = 0; i < KV_N; i++){
+                struct msa_seq* q = m->sequences[i];
+                int n = 0, pend = 0;
+                for(c = 0; c <= w; c++){ q->gaps[c] = 0; }
+                for(c = 0; c < w; c++){
+                        char ch = q->seq[c];
+                        if(isalpha((int)ch)){ q->gaps[n] = pend; pend = 0; q->seq[n] = ch; n++; }
+                        else{ pend++; }
+                }
+                q->gaps[n] = pend;
+                q->seq[n] = 0;
+                q->len = n;
+        }
+        m->aligned = ALN_STATUS_ALIGNED;
+        m->alnlen = 0;
+}
+
 void h_c17_exact(void)
 {
         struct msa* r = kv_mk_msa_raw(KV_N);
@@ -132,6 +153,15 @@ void h_c17_exact(void)
         }
         r->aligned = ALN_STATUS_FINAL; r->alnlen = KV_WR;
         t->aligned = ALN_STATUS_FINAL; t->alnlen = KV_WT;
+        /* C17 is quantified over alignments "produced by an alignment run in the same process" (FINAL: gapped rows) and
+           "read from a file" (ALIGNED: residues + gap counts, what the readers return): KV_RSTATE / KV_TSTATE == 1 hands the
+           reference / the test alignment over in the second form                                                        */
+#if defined(KV_RSTATE) && KV_RSTATE == 1
+        kv_to_gap_counts(r, KV_WR);
+#endif
+#if defined(KV_TSTATE) && KV_TSTATE == 1
+        kv_to_gap_counts(t, KV_WT);
+#endif
 
         /* the definition, executed */
         for(i = 0; i < KV_N; i++){
